@@ -150,6 +150,8 @@ class Roll(HookHost):
         self._contour_line = None
 
     def reevaluate_cache(self):
+        # see BaseRollPass.reevaluate_cache: before (stale for the recomputation) and after (rebuilt meanwhile)
+        self._contour_line = None
         super().reevaluate_cache()
         self._contour_line = None
 
